@@ -215,3 +215,31 @@ func WithBit(x *Int, i int, one bool) *Int {
 	}
 	return r.normalize()
 }
+
+// HostSym returns the symbol standing for "whatever host function <name> answers".
+func (it *Interp) HostSym(name string) Sym {
+	if it.hostSyms == nil {
+		it.hostSyms = map[string]Sym{}
+	}
+	if s, ok := it.hostSyms[name]; ok {
+		return s
+	}
+	s := it.NewSym("host:"+name, CellKey{})
+	it.hostSyms[name] = s
+	return s
+}
+
+// IsHostSym reports whether s stands for a host answer.
+func (it *Interp) IsHostSym(s Sym) bool {
+	return int(s) < len(it.Syms) && len(it.Syms[s].Name) > 5 && it.Syms[s].Name[:5] == "host:"
+}
+
+// DependsOnHost reports whether a dependence set contains a host answer.
+func (it *Interp) DependsOnHost(d Deps) bool {
+	for _, s := range d {
+		if it.IsHostSym(s) {
+			return true
+		}
+	}
+	return false
+}
